@@ -602,8 +602,10 @@ fn deser_type_generic<'frame, 'result, StrT: Into<Cow<'result, str>>>(
                 .map_err(|err| CqlTypeParseError::UdtFieldsCountParseError(err.into()))?
                 .into();
 
+            // Each field occupies at least 4 bytes (name length and type id), so do not
+            // trust the declared count beyond what the rest of the buffer could hold.
             let mut field_types: Vec<(Cow<'result, str>, ColumnType)> =
-                Vec::with_capacity(fields_size);
+                Vec::with_capacity(std::cmp::min(fields_size, buf.len() / 4));
 
             for _ in 0..fields_size {
                 let field_name =
@@ -626,7 +628,8 @@ fn deser_type_generic<'frame, 'result, StrT: Into<Cow<'result, str>>>(
             let len: usize = types::read_short(buf)
                 .map_err(|err| CqlTypeParseError::TupleLengthParseError(err.into()))?
                 .into();
-            let mut types = Vec::with_capacity(len);
+            // Each type occupies at least 2 bytes (type id).
+            let mut types = Vec::with_capacity(std::cmp::min(len, buf.len() / 2));
             for _ in 0..len {
                 types.push(deser_type_generic(
                     buf,
@@ -690,7 +693,10 @@ fn deser_col_specs_generic<'frame, 'result>(
     make_col_spec: fn(&'frame str, ColumnType<'result>, TableSpec<'frame>) -> ColumnSpec<'result>,
     deser_type: fn(&mut &'frame [u8]) -> StdResult<ColumnType<'result>, CqlTypeParseError>,
 ) -> StdResult<Vec<ColumnSpec<'result>>, ColumnSpecParseError> {
-    let mut col_specs = Vec::with_capacity(col_count);
+    // The column count comes from the network. Each column spec occupies at least 4 bytes
+    // (name length and type id), so do not pre-allocate more than the rest of the buffer
+    // could possibly hold; a malformed frame must not trigger a huge allocation.
+    let mut col_specs = Vec::with_capacity(std::cmp::min(col_count, buf.len() / 4));
     for col_idx in 0..col_count {
         let table_spec = match global_table_spec {
             // If global table spec was provided, we simply clone it to each column spec.
@@ -966,7 +972,8 @@ fn deser_prepared_metadata(
     let pk_count: usize =
         types::read_int_length(buf).map_err(PreparedMetadataParseError::PkCountParseError)?;
 
-    let mut pk_indexes = Vec::with_capacity(pk_count);
+    // Each partition key index occupies 2 bytes; see the comment in `deser_col_specs_generic`.
+    let mut pk_indexes = Vec::with_capacity(std::cmp::min(pk_count, buf.len() / 2));
     for i in 0..pk_count {
         pk_indexes.push(PartitionKeyIndex {
             index: types::read_short(buf)
